@@ -19,6 +19,10 @@ THEOREMS = [
     "GoaktVerif.C33.C33_once_holds",
     "GoaktVerif.C33.C33_finish_window_holds",
     "GoaktVerif.C33.finish_reversed_refuted",
+    "GoaktVerif.C33.lifeInv_step",
+    "GoaktVerif.C33.C33_life_holds",
+    "GoaktVerif.C33.C33_announce_refuted",
+    "GoaktVerif.C33.C33_announce_partial",
     "GoaktVerif.C33.C33_holds",
 ]
 # the C32 plan facts are imported from Lemmas/C32*.lean (no generated file involved)
@@ -41,11 +45,12 @@ FACTS = [
 TIMEOUT = 900
 ORACLE_NEEDS_JUDGE = True
 MANIFEST = {
-    "level_text": "Kernel-checked theorems. Item level (C33_accounting_holds, relocate_items, relocateShare_items): for EVERY map iteration order, survivor set, role sets, loads and EVERY environment (which item fails on which node, which batch is rejected by which peer, which lazy release fails) the worker's run produces exactly one record per actor of the snapshot and per relocatable grain - handled by exactly one node, or failed (= listed in the event) - and at most one RelocationFailed event, published exactly when something failed; abort accounting likewise (C33_abort_accounting_holds). Job level (C33_once_holds, inductive invariant inv_step over 13 conjuncts): a NodeLeft while a job is registered leaves the state unchanged; over EVERY history of NodeLeft (duplicates included), order deliveries, spawn failures, completions, worker deaths and Terminated deliveries each departure's relocation ends at most once and gets at most one RelocationFailed event, a queued order or waiting worker always owns the registered job of its address, never two per address, a stale Terminated never aborts a newer job; with the code's order of finish (snapshot deleted, then job released) no duplicate NodeLeft before, between or after the two calls starts a relocation (C33_finish_window_holds; the reverse order is refuted). Tied to the code by differential runs of the REAL relocationWorker.relocate / relocateShare, relocator.Receive (Terminated, Rebalance with failing spawn) beginRelocation/endRelocation/relocationJob and handleNodeLeftEvent (snapshot path, duplicates injected from inside DeletePeerState) against scripted doubles, plus call-order facts re-extracted from the source, with the spec oracle evaluated on the observed trace.",
-    "level_note": "PARTIAL. Parameters, not verified: real cluster membership (cluster.Peers), the transport (a batch whose RPC fails is modelled as not applied by the target; the registry gate that protects against a half-applied batch is outside the model), the peer-side handler (scripted: it reports exactly the failed items), the per-item respawn on the leader (scripted outcome; the real recreateActorFromWire gate is tied in C32). startWorker's successful spawn (tracking + Tell) is replayed by the harness, only the failing-spawn path runs the real code; handleNodeLeftEvent is driven on its snapshot path only (crash-recovery path not driven); worker death is modelled as happening before any bookkeeping. Snapshot identity = pointer identity, fresh per departure (true for both shipped stores). The full relocate is map-ordered: exact comparison only on order-independent families (det: every actor pinned to one target; f1: at most one peer down and node-independent item failures), otherwise only the oracle judges the trace.",
+    "level_text": "Kernel-checked theorems. Item level (C33_accounting_holds, relocate_items, relocateShare_items): for EVERY map iteration order, survivor set, role sets, loads and EVERY environment (which item fails on which node, which batch is rejected by which peer, which lazy release fails) the worker's run produces exactly one record per actor of the snapshot and per relocatable grain - handled by exactly one node, or failed (= listed in the event) - and at most one RelocationFailed event, published exactly when something failed; abort accounting likewise (C33_abort_accounting_holds). Job level (C33_once_holds, inductive invariant inv_step over 13 conjuncts): a NodeLeft while a job is registered leaves the state unchanged; over EVERY history of NodeLeft (duplicates included), order deliveries, spawn failures, completions, worker deaths and Terminated deliveries each departure's relocation ends at most once and gets at most one RelocationFailed event, a queued order or waiting worker always owns the registered job of its address, never two per address, a stale Terminated never aborts a newer job; with the code's order of finish (snapshot deleted, then job released) no duplicate NodeLeft before, between or after the two calls starts a relocation (C33_finish_window_holds; the reverse order is refuted); over every sequence of NodeLefts on either path, completed and aborted runs, relocations started <= aborted + 1 (C33_life_holds: once per departure incl. abort and re-request). Open finding C33-F1 (C33_announce_refuted/partial): on the crash-recovery path a duplicate NodeLeft publishes a RelocationStarted event although nothing is started. Tied to the code by differential runs of the REAL relocationWorker.relocate / relocateShare, relocator.Receive (Terminated, Rebalance with failing spawn) beginRelocation/endRelocation/relocationJob, handleNodeLeftEvent (duplicates injected from inside DeletePeerState) against scripted doubles, and of a started system with the real relocator actor, startWorker, worker actor and gateCrashRecovery (lv), plus call-order facts re-extracted from the source, with the spec oracle evaluated on the observed trace.",
+    "level_note": "PARTIAL. Parameters, not verified: real cluster membership (cluster.Peers), the transport (a batch whose RPC fails is modelled as not applied by the target; the registry gate that protects against a half-applied batch is outside the model), the peer-side handler (scripted: it reports exactly the failed items), the per-item respawn on the leader (scripted outcome; the real recreateActorFromWire gate is tied in C32). in the job scripts startWorker's successful spawn is replayed by the harness; the lv op runs it for real (started system, real spawnRelocator / relocator actor / startWorker / worker actor, both NodeLeft paths incl. gateCrashRecovery) but only observes run counts and events; worker death is modelled as happening before any bookkeeping. Snapshot identity = pointer identity, fresh per departure (true for both shipped stores). The full relocate is map-ordered: exact comparison only on order-independent families (det: every actor pinned to one target; f1: at most one peer down and node-independent item failures), otherwise only the oracle judges the trace.",
     "technique": "Lean 4 proof (permutation accounting composed from the C32 plan theorems; inductive invariant of a transition system) plus model/implementation differential on the real worker with fake peers",
 }
 TRUSTED = [
+    "lv op: waits on real actors are bounded (30 s) and a timeout is reported as inconclusive",
     "scripted doubles in harness/inpkg/actor/zz_verif_c33.go (cluster, store, remoting client, leader-side respawn outcome) play the model's Env faithfully",
     "goroutines of one relocation only interact through the mutex-protected failure list (the model runs shares sequentially; outcomes are compared as sets)",
     "peers have pairwise distinct host:port (survivingPeersExcept matches on it)",
@@ -270,6 +275,7 @@ def fixed_cases():
         "rs 1 -;2 0 A1.0,2.1,3.2,4.3+G-/A-+G5.e,6 X0:a1;X1:g6;L:a2",
         "rs - - 0 A1.0+G-/A-+G2,3.e X0:a1;L:g2",
         "rs - -;- 1 A1.0+G- -",
+        "lv s 0 0", "lv s 3 0", "lv c 0 0", "lv s 0 1", "lv c 0 1", "lv s 2 1",
         "nl 0 0", "nl 0 1", "nl 2 0", "nl 1 1", "nl 3 2",
         "job raw b1.11 b1.12 j1 e1 j1 b1.12 j1",
         "job sys b1.1 w1.1.1 t1 j1",
@@ -294,6 +300,8 @@ def gen_cases(rng, tier):
         cases.append(rand_rs(rng))
     for _ in range(6 if quick else 40):
         cases.append(f"nl {rng.randint(0, 4)} {rng.randint(0, 3)}")
+    for _ in range(6 if quick else 40):
+        cases.append(f"lv {rng.choice('sc')} {rng.randint(0, 3)} {rng.choice([0, 0, 1, 2])}")
     for _ in range(60 if quick else 600):
         cases.append(rand_job_raw(rng, rng.randint(3, 14)))
     for _ in range(60 if quick else 600):
@@ -320,6 +328,8 @@ def compare(case, impl, model):
         return None
     if impl.startswith("panic") or impl.startswith("CRASH") or impl.startswith("rig-error"):
         return f"implementation crashed: {impl!r} model={model!r}"
+    if case.startswith("lv ") and impl.startswith("timeout"):
+        return None  # a bounded wait on real actors ran out: inconclusive, never an alarm
     f = case.split(" ", 2)
     if f[0] == "rl":
         mode = f[1]
@@ -361,4 +371,11 @@ def oracle(case, impl, judge):
 
 
 def classify(case, impl, why):
+    # C33-F1: duplicate (or late) NodeLeft on the crash-recovery path announces a relocation that is
+    # not started: lv case whose crash path sees a duplicate, and ONLY the RelocationStarted count is off
+    f = case.split()
+    if f[0] == "lv" and len(f) == 4 and why and "RelocationStarted events for" in why:
+        k, a = int(f[2]), int(f[3])
+        if k > 0 and (f[1] == "c" or a > 0):
+            return "C33-F1"
     return None
